@@ -70,6 +70,167 @@ pub struct BhCase {
     /// requests (by index, mod 64) whose handler calls back into the same bulkhead
     #[serde(default)]
     pub nest_mask: u64,
+    /// C01 only: instead of a simulated history, clones of one bulkhead are hammered from real OS
+    /// threads (the schedule is the operating system's, not generated: a violation seen is real,
+    /// a replay re-runs the stress and need not hit the same interleaving)
+    #[serde(default)]
+    pub stress: Option<Stress>,
+}
+
+#[derive(Clone, Debug, Serialize, Deserialize)]
+pub struct Stress {
+    pub max: usize,
+    pub threads: usize,
+    pub iters: u32,
+    /// 0 reject_when_full(), 1 max_wait_duration(0), 2 unbounded waiting (a caller that is not
+    /// admitted at its first poll gives up: cancellation while queued)
+    pub mode: u8,
+    /// slots held for the whole run (so that the threads compete for max - parked slots)
+    pub parked: usize,
+}
+
+fn stress_strategy(tier: Tier) -> BoxedStrategy<BhCase> {
+    let iters = match tier {
+        Tier::Quick => 3_000u32,
+        Tier::Thorough => 20_000,
+    };
+    (1usize..=4, 3usize..=8, 0u8..3, 0usize..=3)
+        .prop_map(move |(max, threads, mode, parked)| BhCase {
+            max,
+            wait: Wait::Zero,
+            clones: 1,
+            callers: vec![],
+            order: vec![],
+            hold: None,
+            setter_order: 0,
+            decoy: 0,
+            nest_mask: 0,
+            stress: Some(Stress {
+                max,
+                threads,
+                iters,
+                mode,
+                parked: parked.min(max - 1),
+            }),
+        })
+        .boxed()
+}
+
+/// Real-thread stress: `threads` OS threads each make `iters` calls through their own clone of
+/// one bulkhead; the inner service counts the requests inside it (entered, future not yet
+/// dropped) and records the peak. Oracle: peak <= max_concurrent_calls.
+pub fn run_stress(st: &Stress) -> Report {
+    use std::future::Future;
+    use std::sync::atomic::{AtomicUsize, Ordering};
+    use std::sync::Arc;
+    let mut r = Report::default();
+    struct Inside(Arc<AtomicUsize>);
+    impl Drop for Inside {
+        fn drop(&mut self) {
+            self.0.fetch_sub(1, Ordering::SeqCst);
+        }
+    }
+    let inside = Arc::new(AtomicUsize::new(0));
+    let peak = Arc::new(AtomicUsize::new(0));
+    let admitted = Arc::new(AtomicUsize::new(0));
+    let (i2, p2, a2) = (inside.clone(), peak.clone(), admitted.clone());
+    let inner = tower::service_fn(move |park: bool| {
+        let now = i2.fetch_add(1, Ordering::SeqCst) + 1;
+        p2.fetch_max(now, Ordering::SeqCst);
+        a2.fetch_add(1, Ordering::Relaxed);
+        let guard = Inside(i2.clone());
+        async move {
+            let _guard = guard;
+            if park {
+                futures::future::pending::<()>().await;
+            } else {
+                // stay inside for one more poll
+                let mut first = true;
+                futures::future::poll_fn(move |_| {
+                    if std::mem::replace(&mut first, false) {
+                        std::task::Poll::Pending
+                    } else {
+                        std::task::Poll::Ready(())
+                    }
+                })
+                .await;
+            }
+            Ok::<(), crate::svc::SErr>(())
+        }
+    });
+    let b = BulkheadLayer::builder().max_concurrent_calls(st.max);
+    let b = match st.mode {
+        0 => b.reject_when_full(),
+        1 => b.max_wait_duration(Duration::ZERO),
+        _ => b,
+    };
+    let base = b.build().layer(inner);
+    let rt = tokio::runtime::Builder::new_current_thread().enable_time().build().unwrap();
+    let waker = futures::task::noop_waker();
+    // slots parked for the whole run
+    let mut parked = vec![];
+    {
+        let _g = rt.enter();
+        let mut cx = std::task::Context::from_waker(&waker);
+        for _ in 0..st.parked {
+            let mut s = base.clone();
+            let _ = s.poll_ready(&mut cx);
+            let mut f = Box::pin(s.call(true));
+            let _ = f.as_mut().poll(&mut cx);
+            parked.push(f);
+        }
+    }
+    let start = Arc::new(std::sync::Barrier::new(st.threads));
+    let handles: Vec<_> = (0..st.threads)
+        .map(|_| {
+            let mut svc = base.clone();
+            let iters = st.iters;
+            let start = start.clone();
+            std::thread::spawn(move || {
+                let rt = tokio::runtime::Builder::new_current_thread().enable_time().build().unwrap();
+                let _g = rt.enter();
+                let waker = futures::task::noop_waker();
+                let mut cx = std::task::Context::from_waker(&waker);
+                start.wait();
+                for _ in 0..iters {
+                    if !matches!(svc.poll_ready(&mut cx), std::task::Poll::Ready(Ok(()))) {
+                        continue;
+                    }
+                    let mut f = Box::pin(svc.call(false));
+                    // first poll: admission (or rejection / queueing) and, if admitted, entry
+                    if f.as_mut().poll(&mut cx).is_pending() {
+                        let _ = f.as_mut().poll(&mut cx);
+                    }
+                    drop(f);
+                }
+            })
+        })
+        .collect();
+    let mut panicked = None;
+    for h in handles {
+        if let Err(p) = h.join() {
+            panicked = Some(sim::panic_msg(&p));
+        }
+    }
+    let pk = peak.load(Ordering::SeqCst);
+    if pk > st.max {
+        r.fail(format!(
+            "{} threads on clones of one bulkhead ({}): {pk} requests were inside the wrapped service at once, max_concurrent_calls = {} ({} slots parked, {} admissions in total)",
+            st.threads,
+            ["reject_when_full", "max_wait 0", "unbounded wait, give up when queued"][st.mode as usize % 3],
+            st.max,
+            st.parked,
+            admitted.load(Ordering::Relaxed)
+        ));
+    }
+    if let Some(p) = panicked {
+        r.fail(format!("a bulkhead call panicked on a stress thread: {p}"));
+    }
+    drop(parked);
+    r.nontrivial = admitted.load(Ordering::Relaxed) as usize > st.parked + st.threads;
+    r.class("real_thread_stress");
+    r.trace = json!({"peak_inside": pk, "admissions": admitted.load(Ordering::Relaxed), "stress": st});
+    r
 }
 
 fn case_strategy(tier: Tier) -> BoxedStrategy<BhCase> {
@@ -133,6 +294,7 @@ fn case_strategy(tier: Tier) -> BoxedStrategy<BhCase> {
             setter_order,
             decoy,
             nest_mask,
+            stress: None,
         })
         .boxed()
 }
@@ -842,7 +1004,7 @@ impl Property for C01 {
         "C01"
     }
     fn strategy(&self, tier: Tier) -> BoxedStrategy<BhCase> {
-        case_strategy(tier)
+        prop_oneof![600 => case_strategy(tier), 1 => stress_strategy(tier)].boxed()
     }
     fn budget(&self, tier: Tier) -> (u32, usize) {
         match tier {
@@ -851,6 +1013,9 @@ impl Property for C01 {
         }
     }
     fn run(&self, case: &BhCase) -> Report {
+        if let Some(st) = &case.stress {
+            return run_stress(st);
+        }
         let v = run_bulkhead(case);
         let mut r = Report::default();
         if let Some(m) = v.c01.first() {
@@ -862,11 +1027,11 @@ impl Property for C01 {
         r
     }
     fn rule(&self) -> String {
-        "proptest-generated histories (max 1-5/8, max_wait none/zero/finite, 2-12/32 callers on 1-4 clones of up to two independently layered services, arrival instants, inner latency/outcome incl. panic and never, cancellation points, poll-order choices) run on the hand-driven executor under the virtual clock; oracle: in-flight (entered, not finished/failed/panicked/dropped) <= max at every inner entry and every quiescent instant, per service, plus a final probe of max+1 gated calls. Non-trivial: the case reaches in-flight = max with a further caller queued AND contains a cancellation while queued/running, an inner panic, or a release and an arrival in the same instant; distinct by hash of the case".into()
+        "proptest-generated histories (max 1-5/8, max_wait none/zero/finite, 2-12/32 callers on 1-4 clones of up to two independently layered services, arrival instants, inner latency/outcome incl. panic and never, cancellation points, poll-order choices) run on the hand-driven executor under the virtual clock; oracle: in-flight (entered, not finished/failed/panicked/dropped) <= max at every inner entry and every quiescent instant, per service, plus a final probe of max+1 gated calls. About one case in 600 is a real-thread stress instead: 3-8 OS threads make 3000/20000 calls each through clones of one bulkhead (reject_when_full / max_wait 0 / unbounded wait with give-up), 0-3 slots parked, the inner service counts the requests inside it: peak <= max. Non-trivial: the case reaches in-flight = max with a further caller queued AND contains a cancellation while queued/running, an inner panic, or a release and an arrival in the same instant; distinct by hash of the case".into()
     }
     fn assumptions(&self) -> Vec<String> {
         vec![
-            "single-threaded interleavings (poll order of futures), not preemption inside a poll".into(),
+            "simulated histories: single-threaded interleavings (poll order of futures), not preemption inside a poll; the stress cases add real preemption but their schedule is the operating system's (not generated, not replayable step by step)".into(),
             "virtual clock interposed at clock_gettime; tokio timers fire on whole milliseconds".into(),
         ]
     }
